@@ -289,6 +289,18 @@ class DefaultRealizationFilter(RealizationFilter):
         failed_realizations = np.isnan(constraints[..., 0])
         constraints = np.nan_to_num(constraints[..., self._filter_options.sort])
         assert self._enopt_config.nonlinear_constraints is not None
+        lower_bound = self._enopt_config.nonlinear_constraints.lower_bounds[
+            self._filter_options.sort
+        ]
+        upper_bound = self._enopt_config.nonlinear_constraints.upper_bounds[
+            self._filter_options.sort
+        ]
+        if np.isfinite(lower_bound) and abs(upper_bound - lower_bound) < 1e-15:  # noqa: PLR2004
+            # Equality constraint: the largest absolute differences are the worst.
+            constraints = np.abs(constraints - lower_bound)
+        elif np.isfinite(lower_bound) and not np.isfinite(upper_bound):
+            # Lower bound only: the smallest values are the worst.
+            constraints = -constraints
         return _get_cvar_weights_from_percentile(
             -constraints, failed_realizations, self._filter_options.percentile
         )
